@@ -679,3 +679,309 @@ func derivedTags(in Input) []string {
 	}
 	return tags
 }
+
+// ---------------------------------------------------------------------------------------------
+// Partial failures of the remote signer.  A batch call that has no signature for ONE member (nil
+// entry or an all-zero signature object) although that account signs when asked alone; a batch
+// call that fails as a whole; a single-signature call that fails for an account a batch would sign
+// for.  The service passes a missing signature on as the zero signature and fails the request on
+// an error; what the family is after is anything DONE ABOUT such a failure (a retry of the member
+// on its own, a fall-back from the batch call to a loop, a second batch of the left-overs, dropping
+// or compacting entries) that gets the position, the committee / subcommittee index, the root or
+// the account of the repaired entry wrong: the repaired signature is non-zero, sits at some position
+// of the result and must verify against the message of THAT position.  So: mixed batches in which
+// ordinary accounts precede the distributed ones (the sub-batch position of a member differs from
+// its request position), a different index / root at every position, victims anywhere in their
+// sub-batch, and sessions in which the same batch is asked for again after the failure has gone.
+
+const partialEvery = 6 // every sixth generated input (that is not a session) is of this family
+
+var batchKinds = []string{"attestations", "syncsel", "contributions", "attestations", "slotsel", "syncroots"}
+
+func genPartialPool(r *Rand) ([]Acc, string) {
+	n := r.Range(3, 7)
+	pool := make([]Acc, n)
+	style := ""
+	pick := func(names ...string) Acc { return profiles[names[r.Intn(len(names))]] }
+	switch k := r.Intn(8); {
+	case k < 4: // a dirk account manager: plain and distributed remote accounts
+		style = "pool:dirk"
+		for i := range pool {
+			if i%2 == 0 {
+				pool[i] = profiles["dirk"]
+			} else {
+				pool[i] = profiles["dirk-dist"]
+			}
+		}
+	case k < 5:
+		style = "pool:dist-only"
+		for i := range pool {
+			pool[i] = profiles["dirk-dist"]
+		}
+	case k < 6:
+		style = "pool:dirk-plain-only"
+		for i := range pool {
+			pool[i] = profiles["dirk"]
+		}
+	default: // wallet / remote accounts before distributed remote ones
+		style = "pool:mixed-profiles"
+		for i := range pool {
+			if i%2 == 0 {
+				pool[i] = pick("wallet", "dirk", "all", "prot-signer")
+			} else {
+				pool[i] = pick("dirk-dist", "all-dist", "dirk-dist", "local-dist")
+			}
+		}
+	}
+	for i := range pool {
+		pool[i].Key = uint64(i + 1)
+	}
+	if r.Chance(1, 10) {
+		pool[r.Intn(n)].Fail = true
+	}
+	return pool, style
+}
+
+// genPartialBatch: every pool account at most once, in an order in which ordinary accounts come
+// before distributed ones more often than not.
+func genPartialBatch(r *Rand, pool []Acc) ([]int, string) {
+	var dist, ord []int
+	for _, i := range r.Perm(len(pool)) {
+		if pool[i].Dist {
+			dist = append(dist, i)
+		} else {
+			ord = append(ord, i)
+		}
+	}
+	switch k := r.Intn(8); {
+	case k < 3 && len(ord) > 0 && len(dist) > 0:
+		return append(append([]int{}, ord[:r.Range(1, len(ord))]...), dist...), "batch:ordinary-first"
+	case k < 5 && len(ord) > 0 && len(dist) > 0:
+		var b []int
+		for j := 0; j < len(ord) || j < len(dist); j++ {
+			if j < len(ord) {
+				b = append(b, ord[j])
+			}
+			if j < len(dist) {
+				b = append(b, dist[j])
+			}
+		}
+		return b, "batch:alternating-kinds"
+	case k < 6 && len(ord) > 0 && len(dist) > 0:
+		return append(append([]int{}, dist...), ord...), "batch:distributed-first"
+	default:
+		return r.Perm(len(pool)), "batch:permutation"
+	}
+}
+
+// genPartialSingle: a single-signature request (or a batch of accounts signed for one by one) in
+// which the account's signer fails the call -- every call of the request, or only the first one --
+// then the same request again when the failure has gone.
+func genPartialSingle(r *Rand, i int) Input {
+	chain, e, forkStyle := genChain(r)
+	names := []string{"all", "prot-signer", "wallet", "dirk", "all-dist", "local-dist", "prot-only"}
+	pool := make([]Acc, r.Range(1, 4))
+	for j := range pool {
+		pool[j] = profiles[names[r.Intn(len(names))]]
+		pool[j].Key = uint64(j + 1)
+	}
+	kind := kinds[i%len(kinds)]
+	if !isSingle(kind) { // batches signed for one by one: wallet accounts, local distributed ones
+		for j := range pool {
+			pool[j] = profiles[[]string{"wallet", "local-dist", "prot-signer"}[r.Intn(3)]]
+			pool[j].Key = uint64(j + 1)
+		}
+	}
+	in := Input{Chain: chain, Pool: pool}
+	q := genReq(r, chain, pool, kind, e)
+	if len(q.Batch) == 0 {
+		q.Batch = []int{0}
+		q.Idxs, q.Contribs = nil, nil
+		genContent(r, &q, chain, e)
+	}
+	victim := pool[q.Batch[r.Intn(len(q.Batch))]].Key
+	failure := "partial:single-fails"
+	if r.Bool() {
+		failure = "partial:single-fails-first-call-only"
+		q.SingleOnce = []uint64{victim}
+	} else {
+		q.SingleFail = []uint64{victim}
+	}
+	clean := q
+	clean.SingleFail, clean.SingleOnce = nil, nil
+	steps := []Req{q}
+	if r.Bool() {
+		steps = append(steps, clean)
+	}
+	in.Req, in.Then = steps[0], steps[1:]
+	in.Tags = []string{"partial-failure", forkStyle, "pool:mixed-profiles", failure, "partial:single-signature-paths"}
+	return in
+}
+
+func genPartial(r *Rand, i int) Input {
+	if i%7 == 3 {
+		return genPartialSingle(r, i/7)
+	}
+	chain, e, forkStyle := genChain(r)
+	pool, poolStyle := genPartialPool(r)
+	in := Input{Chain: chain, Pool: pool}
+	kind := batchKinds[i%len(batchKinds)]
+	q := Req{Kind: kind, Epoch: e}
+	q.Slot, _ = slotIn(r, e, chain.SPE)
+	batchStyle := ""
+	q.Batch, batchStyle = genPartialBatch(r, pool)
+	genContent(r, &q, chain, e)
+	// one message per position, all different
+	switch kind {
+	case "attestations", "syncsel":
+		base := uint64(r.Intn(40))
+		q.Idxs = make([]uint64, len(q.Batch))
+		for j, p := range r.Perm(len(q.Batch)) {
+			q.Idxs[j] = base + uint64(p)
+		}
+	case "contributions":
+		q.Contribs = q.Contribs[:min(len(q.Contribs), len(q.Batch))]
+		for j := range q.Contribs {
+			q.Contribs[j].Slot = q.Slot
+			q.Contribs[j].Sub = uint64(j)
+		}
+	}
+	keyAt := func(j int) uint64 { return pool[q.Batch[j]].Key }
+	// the members the batch calls have no signature for: one, sometimes two; distributed ones that
+	// are not at the head of the request more often than not
+	var cands []int
+	for j, p := range q.Batch {
+		if pool[p].Multi || r.Chance(1, 4) {
+			cands = append(cands, j)
+			if pool[p].Dist && j > 0 {
+				cands = append(cands, j, j, j)
+			}
+		}
+	}
+	if len(cands) == 0 {
+		cands = []int{r.Intn(len(q.Batch))}
+	}
+	failure := ""
+	// the account a batch call is made on: the first of its kind in the request
+	firstOf := func(dist bool) (uint64, bool) {
+		for j, p := range q.Batch {
+			if pool[p].Dist == dist {
+				return keyAt(j), pool[p].Multi
+			}
+		}
+		return 0, false
+	}
+	callFailsOn := func() uint64 {
+		d, dm := firstOf(true)
+		o, om := firstOf(false)
+		switch x := r.Intn(10); {
+		case x < 5 && dm:
+			return d // the ordinary accounts have been signed for when the call for the distributed ones fails
+		case x < 9 && om:
+			return o
+		case dm:
+			return d
+		case om:
+			return o
+		}
+		return keyAt(r.Intn(len(q.Batch)))
+	}
+	switch k := r.Intn(13); {
+	case k < 5:
+		failure = "partial:batch-nil-entry"
+		q.BatchFail = []uint64{keyAt(cands[r.Intn(len(cands))])}
+		if r.Chance(1, 4) {
+			if k2 := keyAt(cands[r.Intn(len(cands))]); k2 != q.BatchFail[0] {
+				q.BatchFail = append(q.BatchFail, k2)
+			}
+		}
+		if r.Chance(1, 3) { // only the first batch call leaves it out
+			failure = "partial:batch-nil-entry-first-call-only"
+			q.BatchOnce, q.BatchFail = q.BatchFail, nil
+		}
+	case k < 7:
+		failure = "partial:batch-zero-entry"
+		q.BatchZero = []uint64{keyAt(cands[r.Intn(len(cands))])}
+	case k < 8: // the member cannot be signed for alone either
+		failure = "partial:batch-nil-entry+single-fails"
+		v := keyAt(cands[r.Intn(len(cands))])
+		q.BatchFail, q.SingleFail = []uint64{v}, []uint64{v}
+	case k < 11: // the batch call itself fails
+		failure = "partial:batch-call-fails"
+		q.BatchErr = []uint64{callFailsOn()}
+	case k < 12:
+		failure = "partial:single-fails"
+		q.SingleFail = []uint64{keyAt(r.Intn(len(q.Batch)))}
+	default: // a nil entry for one member and the call failing on another account
+		failure = "partial:batch-nil-entry+other-call-fails"
+		q.BatchFail = []uint64{keyAt(cands[r.Intn(len(cands))])}
+		q.BatchErr = []uint64{callFailsOn()}
+	}
+	shape := "partial:one-request"
+	steps := []Req{q}
+	clean := q
+	clean.BatchFail, clean.BatchOnce, clean.BatchZero, clean.BatchErr, clean.SingleFail, clean.SingleOnce = nil, nil, nil, nil, nil, nil
+	switch r.Intn(6) {
+	case 0: // the same batch asked for again when the failure has gone, and the failure once more
+		shape = "partial:failure-then-clean-then-failure"
+		steps = append(steps, clean, q)
+	case 1:
+		shape = "partial:clean-then-failure"
+		steps = []Req{clean, q}
+	case 2: // the failure moves to another member
+		shape = "partial:failure-moves"
+		q2 := q
+		if len(q2.missKeys()) > 0 {
+			q2.BatchFail, q2.BatchOnce, q2.BatchZero = []uint64{keyAt(r.Intn(len(q.Batch)))}, nil, nil
+		}
+		steps = append(steps, q2, clean)
+	}
+	in.Req, in.Then = steps[0], steps[1:]
+	in.Tags = []string{"partial-failure", forkStyle, poolStyle, batchStyle, failure, shape}
+	return in
+}
+
+// partialTags: families of a request with scripted transient failures, computed from the input.
+func partialTags(in Input) []string {
+	var tags []string
+	if len(in.missKeys())+len(in.BatchErr)+len(in.SingleFail)+len(in.SingleOnce) == 0 {
+		return nil
+	}
+	tags = append(tags, "transient-signer-failure")
+	miss := map[uint64]bool{}
+	for _, k := range in.missKeys() {
+		miss[k] = true
+	}
+	// a member left out by the batch call whose position in its sub-batch differs from its position
+	// in the request, the message at the two positions being different
+	nd, no := 0, 0
+	for j, p := range in.Batch {
+		a := in.Pool[p]
+		sub := no
+		if a.Dist {
+			sub = nd
+		}
+		if miss[a.Key] && !a.Fail {
+			tags = append(tags, "batch-leaves-out-a-member")
+			if sub != j {
+				tags = append(tags, "left-out-member-at-other-sub-batch-position")
+				differs := true
+				switch in.Kind {
+				case "attestations", "syncsel":
+					differs = j < len(in.Idxs) && sub < len(in.Idxs) && in.Idxs[j] != in.Idxs[sub]
+				case "slotsel", "syncroots":
+					differs = false
+				}
+				if differs {
+					tags = append(tags, "left-out-member-other-message-at-sub-batch-position")
+				}
+			}
+		}
+		if a.Dist {
+			nd++
+		} else {
+			no++
+		}
+	}
+	return tags
+}
